@@ -14,7 +14,8 @@ SENSE = {
     "t8": bytes([0x70, 0, 3, 0, 0, 0, 0, 0]),
     "t4": bytes([0x72, 4, 0x44, 0x00]),
 }
-ROUTES = ("direct", "direct_prevraw", "facade_execute", "facade_execute_prevraw", "facade_tur", "facade_inquiry", "facade_ata")
+ROUTES = ("direct", "direct_prevraw", "facade_execute", "facade_execute_prevraw", "facade_tur", "facade_inquiry", "facade_ata",
+          "facade_tur_after_ata", "facade_inquiry_after_ata")
 
 
 class World(object):
@@ -131,10 +132,14 @@ def one(w, tr, prev, st, s, raw, route):
                 facade.testunitready()
             except Exception:
                 pass
+        if route.endswith("_after_ata"):
+            # the one facade method that asks for raw sense ran (successfully) on this facade before
+            w.state.update(st=0, s=None)
+            facade.atapassthrough16(0, 0, 0, 0, 0, 0, 0, 0, 0, 0xEC)
         w.state.update(st=st, s=SENSE[s])
-        if route == "facade_tur":
+        if route.startswith("facade_tur"):
             return observe(lambda: facade.testunitready(), lambda: None)
-        if route == "facade_inquiry":
+        if route.startswith("facade_inquiry"):
             return observe(lambda: facade.inquiry(), lambda: None)
         return observe(lambda: facade.atapassthrough16(0, 0, 0, 0, 0, 0, 0, 0, 0, 0xEC), lambda: None)
     finally:
@@ -242,7 +247,7 @@ def run(chk, replay=None):
                     continue
                 if route.endswith("prevraw") and c["prev"] == "none":
                     continue
-                if route in ("facade_tur", "facade_inquiry") and c["raw"]:
+                if route in ("facade_tur", "facade_inquiry", "facade_tur_after_ata", "facade_inquiry_after_ata") and c["raw"]:
                     continue      # these facade methods never ask for raw sense
                 if route == "facade_ata" and not c["raw"]:
                     continue      # ATA pass-through always asks for raw sense
